@@ -411,6 +411,19 @@ fn big_cases(seed: u64) -> Vec<Case> {
             v.push(Case::full(alg, &b, &a));
         }
     }
+    // LOPSIDED with one or two SHARED items: a single item (or a pair) against 70 / 600 distinct items that contain it once,
+    // at the start, in the middle, at the end -- both ways round, all algorithms (LCS only for the small one)
+    for &long in &[70usize, 600] {
+        let b: Vec<u32> = (0..long as u32).map(|i| 600_000 + i).collect();
+        for (k, &at) in [0usize, 1, long / 2, long - 2, long - 1].iter().enumerate() {
+            let shorts: [Vec<u32>; 2] = [vec![b[at]], vec![b[at], 599_999]];
+            for a in shorts {
+                let alg = ALGS[if long > 100 { k % 2 } else { k % 3 }];
+                v.push(Case::full(alg, &a, &b));
+                v.push(Case::full(alg, &b, &a));
+            }
+        }
+    }
     // blocks moved across bigger blocks, hundreds of edits in ONE divide step: old = j K B S T, new = K S B T'
     // (all items distinct; keeping B costs 2|S|, keeping S costs 2|B|). An early-exit rule of the middle-snake search
     // (a "good enough" snake after so many rounds) splits off every shortest path only on shapes like this one.
